@@ -1229,7 +1229,7 @@ class Interp:
             return d
         if T is ast.Subscript:
             return self.eval_subscript(e, env)
-        if T is ast.ListComp and len(e.generators) == 1 and not e.generators[0].ifs:
+        if T in (ast.ListComp, ast.GeneratorExp) and len(e.generators) == 1 and not e.generators[0].ifs:
             src = self.eval(e.generators[0].iter, env)
             if isinstance(src, AbsSeq):
                 g = e.generators[0]
